@@ -123,7 +123,8 @@ def part_tile(W, H, k, acc):
                                                     if r % 4 == k]))
 
 
-RAGGED = [[8, 8], [16, 16], [20, 12], [28, 16], [12, 16], [13, 1], [1, 13]]
+RAGGED = [[8, 8], [16, 16], [20, 12], [28, 16], [12, 16], [13, 1], [1, 13],
+          [12, 8], [8, 12], [24, 20]]
 RAGGED_ROOTS = [(rx, ry) for rx in (0, 4, 5, 8) for ry in (0, 3, 4, 8, 11)]
 
 
@@ -199,6 +200,43 @@ def part_ragged(acc):
                 got = list(g.spinn5_eth_coords(w, h, rx, ry))
             except Exception as ex:
                 got = [repr(ex)]
+            try:
+                # asking again must give the same list again
+                again = list(g.spinn5_eth_coords(w, h, rx, ry))
+            except Exception as ex:
+                again = [repr(ex)]
+            if sorted(again) != sorted(got):
+                acc.violation(dict(kind="eth_coords_repeat"),
+                              dict(part="ragged", w=w, h=h, root=[rx, ry]),
+                              "spinn5_eth_coords(%d,%d,%d,%d) gave %r the "
+                              "first time and %r the second"
+                              % (w, h, rx, ry, sorted(got), sorted(again)))
+            # chips whose whole board lies inside the machine (no wrapping):
+            # local Ethernet chip and board coordinate for this root
+            for x in range(w):
+                for y in range(h):
+                    e, c = tile(x, y, W, H, rx, ry)
+                    if not (e[0] + 7 < w and e[1] + 7 < h and e[0] <= x and
+                            e[1] <= y):
+                        continue
+                    acc.evaluations += 1
+                    try:
+                        ge = tuple(g.spinn5_local_eth_coord(x, y, w, h, rx,
+                                                            ry))
+                        gc = tuple(g.spinn5_chip_coord(x, y, rx, ry))
+                    except Exception as ex:
+                        ge = gc = repr(ex)
+                    if ge != e or gc != c:
+                        acc.violation(
+                            dict(kind="ragged_chip_root"),
+                            dict(part="ragged", w=w, h=h, root=[rx, ry],
+                                 chip=[x, y]),
+                            "%dx%d machine rooted at (%d,%d): chip (%d,%d) "
+                            "-> local Ethernet chip %r, board coordinate %r; "
+                            "its board (wholly inside the machine) has its "
+                            "Ethernet chip at %r, offset %r"
+                            % (w, h, rx, ry, x, y, ge, gc, e, c))
+                        break
             if set(got) != inside or len(got) != len(set(got)):
                 acc.violation(dict(kind="eth_coords_ragged"),
                               dict(part="ragged", w=w, h=h, root=[rx, ry]),
